@@ -12,15 +12,16 @@ LEVEL_TEXT = {
                               "Restart inside a history is C02's theorem."),
  "C06": dict(text="Theorem C06_cas_immutable: along every API history every recorded filesystem call is cas_safe (never creates, opens for writing, "
                   "appends to, syncs or renames away a path under cas/; CAS paths occur only as rename targets from staging/ and in unlink), and "
-                  "CasNamed (content hashes to the name) is preserved; C06_every_crash_point. Readers (inode-level model theories/Inode.v: names -> inodes -> data, Linux "
+                  "CasNamed (content hashes to the name) is preserved; C06_every_crash_point; C06_blob_content_is_fixed_concurrent (between any two reachable states of the "
+                  "concurrent model a hash never denotes two different contents). Readers (inode-level model theories/Inode.v: names -> inodes -> data, Linux "
                   "semantics of rename / unlink / O_TRUNC / append): C06_inode_model_agrees (it shows the same content under every name as the name-level model, on the same "
                   "traces), C06_reader_keeps_its_content(_always) (a descriptor opened on a blob reads the same bytes after ANY cas_safe trace, at every intermediate call, "
                   "whatever happens to the name), C06_reader_survives_history (a reader opened at any point of any API history keeps the content the key had then), and the "
                   "witness that an append or O_TRUNC on a cas path - what cas_safe excludes - does change what the reader sees. Correspondence: call traces (LD_PRELOAD shim) "
                   "and directory dumps of the real library equal the model's; the harness re-hashes every CAS file at every kill point and after every operation; readers "
                   "held across overwrites and removals are drained at the end of the history.",
-             note=BASE_NOTE + "The theorems are sequential (crash prefixes are prefixes of the proved trace; thread interleavings are covered by the concurrent "
-                              "correspondence). That a descriptor refers to an inode whose data survives unlink and rename-over is the inode model's definition, i.e. an "
+             note=BASE_NOTE + "The call-level theorems are sequential (crash prefixes are prefixes of the proved trace); under concurrency the model is at the level of "
+                              "blob contents per hash (C06_blob_content_is_fixed_concurrent), the call level is covered by the concurrent correspondence. That a descriptor refers to an inode whose data survives unlink and rename-over is the inode model's definition, i.e. an "
                               "assumption about Linux, exhibited by the held-reader cases."),
  "C07": dict(text="Theorem C07_exact_after_every_history: Clean (nothing under cas/ but the blobs of the current contents at their canonical paths, staging/ empty) "
                   "is preserved by every API history; C07_nothing_less: every content has its blob. K2 compares directory listings after every operation; "
